@@ -215,8 +215,10 @@ def load_module_from_file_object(
         magic_int = magic2int(magic)
 
         # For reasons I don't understand, PyPy 3.2 stores a magic
-        # of '0'...  The two values below are for Python 2.x and 3.x respectively
-        if magic[0:1] in ["0", b"0"]:
+        # of '0'...  The two values below are for Python 2.x and 3.x respectively.
+        # Compare the whole 16-bit magic: other magics (3376, Python 3.6b1) also
+        # start with the byte '0'.
+        if magic_int == 48:
             magic = int2magic(3180 + 7)
 
         try:
